@@ -23,6 +23,7 @@ import (
 	"net/http"
 	"strconv"
 	"strings"
+	"sync"
 	"testing"
 
 	"pgregory.net/rapid"
@@ -937,6 +938,67 @@ func TestVP_C05_Request(t *testing.T) {
 // ---------------------------------------------------------------------------------------------
 // responses
 
+var vpC05Shifters = []string{"HTTP/1.1 204 No", "HTTP/1.1\r304 NM", "HTTP/1.0\n100 C", "HTTP/1.1 101", "HTTP/1.1 200 OK", "HTTP/1.1\r\n204", "HTTP/1.1 404 "}
+
+// Known finding C05/response-protocol-space: ResponseHeader.SetProtocol writes its argument in
+// front of " <code> <reason>"; when the argument (after CR/LF became SP) has the form
+// "<version> DDD..." a peer reads DDD as the status code, and for 1xx/204/304 stops at the head, so
+// the real body is parsed as a second message.
+const vpC05KeyProtoSpace = "C05/response-protocol-space"
+
+func vpC05NeutralisedProtocol(v []byte) []byte {
+	b := append([]byte(nil), v...)
+	for i, ch := range b {
+		if ch == '\r' || ch == '\n' {
+			b[i] = ' '
+		}
+	}
+	return b
+}
+
+// vpC05ProtocolCarriesStatus: would a peer find a 3-digit status code inside the protocol argument?
+func vpC05ProtocolCarriesStatus(v []byte) bool {
+	return vpC05PeerStatus(append(vpC05NeutralisedProtocol(v), " 200 OK"...)) >= 0 &&
+		bytes.ContainsAny(v, " \r\n")
+}
+
+func vpC05BreakProtocolStatus(v []byte) []byte {
+	b := append([]byte(nil), v...)
+	for i, ch := range b {
+		if ch == ' ' || ch == '\r' || ch == '\n' {
+			b[i] = '_'
+		}
+	}
+	return b
+}
+
+var vpC05ProtoProbeOnce sync.Once
+
+func vpC05ProbeProtocolSpace() {
+	vpC05ProtoProbeOnce.Do(func() {
+		var resp Response
+		resp.SetBody([]byte("HTTP/1.1 200 OK\r\nContent-Length: 0\r\nInj-30: v\r\n\r\n"))
+		resp.Header.SetProtocol([]byte("HTTP/1.1\r204 x"))
+		var buf bytes.Buffer
+		bw := bufio.NewWriter(&buf)
+		if err := resp.Write(bw); err != nil {
+			vpProbe(vpC05KeyProtoSpace, false, "Write rejects the protocol: "+err.Error())
+			return
+		}
+		bw.Flush()
+		br := bufio.NewReader(bytes.NewReader(buf.Bytes()))
+		r1, err := http.ReadResponse(br, &http.Request{Method: "GET"})
+		if err != nil || r1.StatusCode != 204 {
+			vpProbe(vpC05KeyProtoSpace, false, fmt.Sprintf("peer does not see 204 (err=%v) wire=%q", err, buf.Bytes()))
+			return
+		}
+		io.Copy(io.Discard, r1.Body)
+		r2, err := http.ReadResponse(br, &http.Request{Method: "GET"})
+		present := err == nil && r2.Header.Get("Inj-30") == "v"
+		vpProbe(vpC05KeyProtoSpace, present, fmt.Sprintf("SetProtocol(%q)+SetStatusCode(200)+body: net/http reads status 204 and then a second response from the body (second=%v); wire=%q", "HTTP/1.1\r204 x", present, buf.Bytes()))
+	})
+}
+
 var vpC05BodyCodes = []int{200, 201, 206, 301, 302, 404, 500, 600, 999}
 var vpC05AnyCodes = []int{0, 200, 201, 204, 206, 301, 302, 304, 400, 404, 500, 100, 101, 103, 199, 999, 1000, 99, -1, 600, 7}
 
@@ -972,6 +1034,18 @@ func (c *vpC05Case) responseOp(ctx *RequestCtx) {
 		resp.Header.SetStatusMessage(v)
 	case 3:
 		v := c.arg("v")
+		if rapid.IntRange(0, 9).Draw(t, "shift") < 4 {
+			// first-line token shifters: a protocol argument that carries its own status code
+			v = append([]byte(rapid.SampledFrom(vpC05Shifters).Draw(t, "shifter")), v...)
+		}
+		if vpC05ProtocolCarriesStatus(v) {
+			vpC05ProbeProtocolSpace()
+			if vpKnownOpen(vpC05KeyProtoSpace) {
+				// known finding: steer away from exactly this class (break the embedded status token)
+				vpExclude(vpC05KeyProtoSpace)
+				v = vpC05BreakProtocolStatus(v)
+			}
+		}
 		c.logf("resp.Header.SetProtocol(%q)", v)
 		resp.Header.SetProtocol(v)
 	case 4:
@@ -1065,13 +1139,16 @@ func vpC05WireIs11(first []byte, isReq bool) bool {
 	return i >= 0 && string(first[:i]) == "HTTP/1.1"
 }
 
-// vpC05PeerStatus parses the status line the way a peer does: version SP 3DIGIT [SP reason].
+// vpC05PeerStatus parses the status line the way a (lenient) peer does: version 1*SP 3DIGIT [SP reason].
 func vpC05PeerStatus(first []byte) int {
 	i := bytes.IndexByte(first, ' ')
 	if i < 0 {
 		return -1
 	}
 	rest := first[i+1:]
+	for len(rest) > 0 && rest[0] == ' ' {
+		rest = rest[1:] // lenient peers (net/http, fasthttp) skip a run of SP after the version
+	}
 	tok := rest
 	if j := bytes.IndexByte(rest, ' '); j >= 0 {
 		tok = rest[:j]
